@@ -487,6 +487,35 @@ func TestCheck(t *testing.T) {
 		})
 	})
 
+	// -- lists beyond the 16-bit length prefix: refused, not wrapped --
+	for _, nCfg := range []int{559, 560, 561, 562, 600, 1200} {
+		_, one, err := ech.NewConfig(7, []byte("public.example.com"))
+		if err != nil {
+			r.Inconclusive("fixture: NewConfig: %v", err)
+			break
+		}
+		cfgs := make([]ech.Config, nCfg)
+		for j := range cfgs {
+			cfgs[j] = one
+		}
+		c := map[string]any{"configs": nCfg, "config_len": len(one), "total": nCfg * len(one)}
+		r.Guard("biglist", nCfg, "list:oversize", c, func() {
+			enc, err := ech.ConfigList(cfgs)
+			r.Eval(fmt.Sprintf("biglist|%d", nCfg))
+			r.Count("oversize_lists", 1)
+			if err != nil {
+				if nCfg*len(one) <= 65535 {
+					r.Violate("biglist", nCfg, "list:error", fmt.Sprintf("ConfigList refused %d bytes of configs: %v", nCfg*len(one), err), c)
+				}
+				return
+			}
+			rl, perr := refParseList(enc, false)
+			if perr != nil || len(rl) != nCfg || int(binary.BigEndian.Uint16(enc)) != len(enc)-2 {
+				r.Violate("biglist", nCfg, "list:length-prefix-wrapped", fmt.Sprintf("ConfigList returned %d bytes with length prefix %d for %d configs of %d bytes (independent parser: %d configs, %v)", len(enc), binary.BigEndian.Uint16(enc), nCfg, len(one), len(rl), perr), c)
+			}
+		})
+	}
+
 	// -- NewConfig --
 	nNew := r.N(512, 60000)
 	r.Parallel("newconfig", nNew, func(i int, rng *mrand.Rand) {
@@ -564,7 +593,8 @@ func TestCheck(t *testing.T) {
 			base := DNSName(rng, 3+rng.IntN(40))
 			pub = []string{"localhost", "under_score." + base, "-" + base, strings.Replace(base, ".", "-.", 1), base + ".", "." + base,
 				strings.Replace(base, ".", "..", 1), DNSName(rng, 254), DNSName(rng, 255), "sp ace." + base, strings.ToUpper(base), "192.0.2.1", "xn--bcher-kva." + base,
-				strings.Repeat("a", 64) + "." + base, "a", "é." + base}[(i/5)%16]
+				strings.Repeat("a", 64) + "." + base, "a", "é." + base,
+				base + "\r", base + "\n", "a\x10b." + base, "a\x19." + base, base[:1] + "\x00" + base[1:], "\x7f" + base, base + "\x2e\x0d"}[(i/5)%23]
 		}
 		id := uint8(rng.IntN(256))
 		mode := i % 4 // 0: NewConfig, 1..3: ConfigSpec.Bytes with a single AEAD
@@ -584,7 +614,7 @@ func TestCheck(t *testing.T) {
 			}
 			if err != nil && odd && !strictName([]byte(pub)) {
 				r.Count("odd_names_refused_by_the_producer", 1)
-				r.Eval(fmt.Sprintf("handshake|odd-refused|%d", (i/5)%16))
+				r.Eval(fmt.Sprintf("handshake|odd-refused|%d", (i/5)%23))
 				return
 			}
 			if err != nil {
@@ -609,7 +639,7 @@ func TestCheck(t *testing.T) {
 			inner := "inner.example"
 			srvCert := ca.MustLeaf(0, inner, "public.example")
 			if odd {
-				c["name_shape"] = (i / 5) % 16
+				c["name_shape"] = (i / 5) % 23
 			}
 			srvConf := &tls.Config{
 				Certificates:             []tls.Certificate{srvCert},
